@@ -72,6 +72,25 @@ def run(ctx):
         ctx.coverage['traces_validated_against_impl'] += 1
         if len(txt) > 60:
             seen.add(txt)
+    # rows are dicts: the order in which a row dict lists its keys is not content - the same grid with its row dicts built in
+    # another key order must be written as the same document
+    twins = 0
+    for g in gs:
+        if twins >= (4000 if thorough else 400):
+            break
+        g2 = codec.shuffled_rows_twin(rng, g)
+        if g2 is None:
+            continue
+        twins += 1
+        ctx.coverage['evaluations'] += 1
+        t1, t2 = json.loads(h.dump(g, mode=h.MODE_JSON)), json.loads(h.dump(g2, mode=h.MODE_JSON))
+        if t1 != t2:
+            ctx.violation('impl-counterexample', 'the same grid with its row dicts built in another key order is written differently '
+                          '(cells under other columns): %r' % (_diff(t1.get('rows'), t2.get('rows')),),
+                          {'grid_canonical': repr(codec.canon(g))[:3000], 'rows_as_given': repr([list(r.keys()) for r in g2])[:1000],
+                           'dumped': json.dumps(t2)[:3000], 'dumped_in_column_order': json.dumps(t1)[:3000]})
+            return
+    ctx.count('row-key-order twins', twins)
     # lists of grids -> JSON array of such objects
     for k in (0, 1, 2, 3):
         sub = gs[:k]
